@@ -217,6 +217,17 @@ def replay(prop, path, work):
     elif layer == "vec":
         run_harness(["vec-replay", beh, trace])
         val = vec_validate(trace, work)
+    elif layer == "adapters":
+        run_harness(["adapters-replay", beh, trace])
+        val = ad_validate(trace, work)
+    elif layer == "tokens":
+        sub = payload.get("signature", {}).get("layer", "vec")
+        cmd = {"obs": ["obs-replay", beh, trace, "--nv", "3", "--track"], "vec": ["vec-replay", beh, trace, "--track"],
+               "adapters": ["adapters-replay", beh, trace, "--track"]}[sub]
+        run_harness(cmd)
+        c = os.path.join(work, "TraceTokens.cfg")
+        write_cfg(c, spec="TraceSpec", postcondition="TraceAccepted")
+        val = validate("TraceTokens", c, trace, work, nchunks=1)
     else:
         raise ToolError("cannot replay layer %r" % layer)
     print(open(trace).read())
@@ -364,3 +375,342 @@ def vec_pipeline(prop, tier, seed, work, t0):
 
 for _p in ("C05", "C06", "C07", "C08", "C17"):
     CHECKS[_p] = vec_pipeline
+
+
+# =========================================================================== adapters layer (crate eyeball-im-util)
+AD_TRACE = dict(MaxDecs=4, SubIds={1, 2, 3}, Caps={1}, MaxLen=1000, LagThenClosedLosesState=False)
+ALL_KINDS = {"head", "tail", "skip", "filter", "filter_map", "sort", "sort_by", "sort_by_key"}
+LIMIT_KINDS = {"head", "tail", "skip"}
+
+
+def ad_base(**over):
+    d = dict(MaxDecs=1, SubIds={1, 2}, Caps={16}, MaxLen=3, LagThenClosedLosesState=False, Depth=4,
+             InitLens={0, 2}, StageKinds=LIMIT_KINDS, Modes={"static", "dyn", "dyninit"}, Params={0, 1, 2, 3},
+             NStages={1}, PipeFlavs={"plain"}, SelfObs={0})
+    d.update(over)
+    return d
+
+
+def ad_plans(prop, quick):
+    """List of (spec, mode, constants, num) generation plans per property (sizes measured with tools/plan_sizes.py)."""
+    D = 4 if quick else 5
+    both = {"plain", "batched"}
+    sim_n = lambda q, t: max(q // 3, 50) if quick else t
+    if prop == "C09":
+        return [("GSpec", "edge", ad_base(StageKinds={k}, Depth=D, PipeFlavs={"plain"}, InitLens={2} if quick else {0, 2, 3},
+                                          Params={0, 1, 3} if quick else {0, 1, 2, 3, 4}), 0) for k in sorted(LIMIT_KINDS)] + [
+            ("GSpec", "edge", ad_base(Depth=D, Caps={1}, InitLens={2}, Modes={"dyninit"}, Params={1, 2}, PipeFlavs=both), 0),
+            ("GSpecTxnSmall", "edge", ad_base(Depth=D + 2, InitLens={2}, Modes={"static"}, Params={1, 2}, MaxLen=4), 0),
+            ("GSpecTxn", "sim", ad_base(Depth=40, Caps={1, 2, 16}, InitLens={0, 1, 3, 5}, Params={0, 1, 2, 3, 5, 8}, MaxLen=8,
+                                        PipeFlavs=both), sim_n(500, 20000))]
+    if prop == "C10":
+        K = {"filter", "filter_map"}
+        return [("GSpec", "edge", ad_base(StageKinds=K, Depth=D, InitLens={3} if quick else {0, 3}, PipeFlavs=both), 0),
+                ("GSpec", "edge", ad_base(StageKinds=K, Depth=D + 1, Caps={1}, InitLens={2}, MaxLen=2, PipeFlavs=both), 0),
+                ("GSpecTxnSmall", "edge", ad_base(StageKinds=K, Depth=D + 2, InitLens={2}, MaxLen=4, PipeFlavs=both), 0),
+                ("GSpecTxn", "sim", ad_base(StageKinds=K, Depth=40, Caps={1, 2, 16}, InitLens={0, 1, 3, 5}, MaxLen=8,
+                                            PipeFlavs=both), sim_n(500, 20000))]
+    if prop == "C11":
+        K = {"sort", "sort_by", "sort_by_key"}
+        return [("GSpec", "edge", ad_base(StageKinds=K, Depth=D, InitLens={3} if quick else {0, 3}, MaxLen=4, PipeFlavs=both), 0),
+                ("GSpec", "edge", ad_base(StageKinds=K, Depth=D + 1, Caps={1}, InitLens={2}, MaxLen=2), 0),
+                ("GSpecTxnSmall", "edge", ad_base(StageKinds=K, Depth=D + 2, InitLens={3}, MaxLen=5), 0),
+                ("GSpecTxn", "sim", ad_base(StageKinds=K, Depth=40, Caps={1, 2, 16}, InitLens={0, 1, 3, 5, 7}, MaxLen=9,
+                                            PipeFlavs=both), sim_n(500, 20000))]
+    if prop == "C12":
+        return [("GSpec", "edge", ad_base(StageKinds=ALL_KINDS, NStages={2}, Depth=3 if quick else 4, InitLens={3}, Modes={"dyn", "static"},
+                                          Params={1, 2}, SelfObs={0, 1}, MaxLen=4), 0),
+                ("GSpecTxn", "sim", ad_base(StageKinds=ALL_KINDS, NStages={2, 3}, Depth=30, Caps={2, 16}, InitLens={0, 2, 4, 6},
+                                            Params={0, 1, 2, 4}, MaxLen=8, SelfObs={0, 1}, PipeFlavs=both),
+                 sim_n(1500, 40000))]
+    if prop == "C13":
+        fixed = dict(Modes={"static"}, PipeFlavs={"twin", "batched"})
+        return [("GSpecTxnSmall", "edge", ad_base(StageKinds=ALL_KINDS, Depth=D + 2, InitLens={2}, Params={1}, MaxLen=4, Modes={"static"},
+                                                  PipeFlavs={"twin"} if quick else {"twin", "batched"}), 0),
+                ("GSpecTxn", "sim", ad_base(StageKinds=ALL_KINDS, NStages={1, 2}, Depth=40, Caps={16, 64}, InitLens={0, 2, 5}, Params={0, 1, 3},
+                                            MaxLen=8, **fixed), sim_n(800, 30000)),
+                ("GSpecTxn", "sim", ad_base(StageKinds=ALL_KINDS, NStages={1, 2}, Depth=40, Caps={1, 16}, InitLens={0, 2, 5}, Params={0, 1, 3},
+                                            MaxLen=8, PipeFlavs={"batched"}), sim_n(400, 20000))]
+    if prop == "C14":
+        return [("GSpec", "edge", ad_base(StageKinds=ALL_KINDS, Depth=D, InitLens={2}, Modes={"dyn"}, Params={1, 3}, PipeFlavs=both), 0),
+                ("GSpecTxn", "sim", ad_base(StageKinds=ALL_KINDS, NStages={1, 2, 3}, Depth=40, Caps={1, 16}, InitLens={0, 2, 5}, Params={0, 1, 3},
+                                            MaxLen=8, SelfObs={0, 1}, PipeFlavs=both), sim_n(1000, 30000))]
+    if prop == "C15":
+        K = {"head", "tail"}
+        return [("GSpec", "edge", ad_base(StageKinds=K, Depth=D, Modes={"static"}, InitLens={3} if quick else {0, 2, 3},
+                                          Params={1, 2, 3}, MaxLen=4, PipeFlavs=both), 0),
+                ("GSpecTxnSmall", "edge", ad_base(StageKinds=K, Depth=D + 2, Modes={"static"}, InitLens={3}, Params={1, 2}, MaxLen=5, PipeFlavs={"batched"}), 0),
+                ("GSpecTxn", "sim", ad_base(StageKinds=K, Depth=40, Caps={1, 16}, Modes={"static"}, InitLens={0, 2, 5, 8}, Params={0, 1, 2, 3, 5},
+                                            MaxLen=10, PipeFlavs=both), sim_n(500, 20000))]
+    raise ToolError("no adapters plan for " + prop)
+
+
+def ad_nontrivial(prop):
+    def polls_after_change(b):
+        ops = [o["op"] for o in b[1:]]
+        ch = [j for j, o in enumerate(ops) if o in MUT_OPS or o in ("TxnCommit", "Limit")]
+        return bool(ch) and "Poll" in ops[ch[0] + 1:]
+
+    def c13(b):
+        ops = [o["op"] for o in b[1:]]
+        return polls_after_change(b) and any(p["flav"] == "batched" for p in b[0]["pipes"])
+
+    def c12(b):
+        return polls_after_change(b) and len(b[0]["pipes"][0]["chain"]) >= 2
+
+    def c14(b):
+        # a poll, then a change, then a poll again
+        ops = [o["op"] for o in b[1:]]
+        if "Poll" not in ops:
+            return False
+        i = ops.index("Poll")
+        rest = ops[i + 1:]
+        ch = [j for j, o in enumerate(rest) if o in MUT_OPS or o in ("TxnCommit", "Limit", "LimitDrop", "DropVector")]
+        return bool(ch) and "Poll" in rest[ch[0] + 1:]
+    return dict(C09=polls_after_change, C10=polls_after_change, C11=polls_after_change, C12=c12, C13=c13, C14=c14,
+                C15=polls_after_change)[prop]
+
+
+AD_RULES = dict(
+    C09="TLC generates (initial contents, limit, chain=[head|tail|skip in static / dynamic / dynamic-with-initial mode], operation history) "
+        "from GenAdapters.tla: transition cover + random walks; non-trivial = a poll after at least one source or limit change",
+    C10="same for filter / filter_map, plain and batched, capacities 1 and 16 (Reset from lag); non-trivial = poll after a change",
+    C11="same for sort / sort_by / sort_by_key with ties under the comparison; non-trivial = poll after a change",
+    C12="chains of 2-3 stages over all 8 adapter kinds incl. the adapter-itself-as-observer path; non-trivial = chain >= 2 and a poll after a change",
+    C13="fixed-parameter adapters on a batched pipe (and a plain twin on the same vector), histories with transactions; non-trivial = "
+        "batched pipe polled after a change",
+    C14="all adapters and chains; every poll that returns an item or the end after a Pending poll must find its waker woken; non-trivial = "
+        "poll, change, poll",
+    C15="static head/tail, plain and batched; limit checked after every single diff; non-trivial = poll after a change",
+)
+
+
+def ad_sig(v):
+    d = v["detail"]
+    stage = d.get("stage", 0) or 0
+    chain = d.get("chain") or (d.get("pipes") or [{}])[(d.get("pipe") or 1) - 1].get("chain", [])
+    st = chain[stage - 1] if 1 <= stage <= len(chain) else {}
+    sig = dict(layer="adapters", clause=v["clause"], stage_kind=st.get("kind"), stage_mode=st.get("mode"),
+               stage_family="sort" if str(st.get("kind", "")).startswith("sort") else st.get("kind"))
+    cause = None
+    if st and d.get("op") == "Poll":
+        ps = set(d.get("pset", [[]] * stage)[stage - 1])
+        fn = set(d.get("fin", [[]] * stage)[stage - 1])
+        inlen = d.get("inlen", 0)
+        if st.get("kind") in LIMIT_KINDS and any(o > inlen > n >= 1 for o in ps for n in fn):
+            cause = "limit-decrease-from-beyond-length"
+        elif "Truncate" in d.get("inkinds", []) and "Truncate" in d.get("outkinds", []):
+            cause = "truncate-forwarded"
+        elif "Reset" in d.get("inkinds", []):
+            cause = "reset-input"
+    if d.get("op") == "Begin":
+        cause = "initial-values"
+    sig["cause"] = cause
+    if len(chain) >= 2 and stage >= 2:
+        prev = chain[stage - 2]
+        sig["below"] = "%s/%s/self%d" % (prev.get("kind"), prev.get("mode"), prev.get("self", 0))
+    return sig
+
+
+def ad_validate(trace, work):
+    c = os.path.join(work, "TraceAdapters.cfg")
+    write_cfg(c, spec="TraceSpec", constants=AD_TRACE, postcondition="TraceAccepted")
+    return validate("TraceAdapters", c, trace, work)
+
+
+def adapters_pipeline(prop, tier, seed, work, t0):
+    quick = tier == "quick"
+    # ---- 1. design level: the view functions / diff algebra are exercised exhaustively by MCVecOps (C18);
+    #         the source model by MCVec.  Here: MCVec on small constants for the source side.
+    cfg = os.path.join(work, "MCVec.cfg")
+    write_cfg(cfg, spec="Spec", constants=dict(MaxDecs=1, SubIds={1, 2}, Caps={1, 2}, MaxLen=2,
+                                               LagThenClosedLosesState=False, MaxOps=4 if quick else 5),
+              view="View", constraints=["Bound"], invariants=VEC_INVS, properties=VEC_PROPS)
+    mc = tlc("MCVec", cfg, work, workers=8, timeout=3000, tag="mc")
+    if not tlc_ok(mc, "MCVec"):
+        log(mc["out"][-5000:])
+        raise ToolError("MCVec: model error")
+    beh = os.path.join(work, "beh.ndjson")
+    n = 0
+    gstates = gtrans = 0
+    for j, (spec, mode, consts, num) in enumerate(ad_plans(prop, quick)):
+        c = os.path.join(work, "Gen%d.cfg" % j)
+        if mode == "edge":
+            write_cfg(c, spec=spec, constants=consts, view="View", constraints=["Bound"], action_constraints=["Edge"])
+            k, r = gen_behaviours("GenAdapters", c, work, beh, "edge", tag="g%d" % j, workers=12, timeout=3000)
+            gstates += r["distinct"]
+            gtrans += r["generated"]
+        else:
+            write_cfg(c, spec=spec, constants=consts, constraints=["BoundTree"], invariants=["PrintAtDepth"])
+            k, r = gen_behaviours("GenAdapters", c, work, beh, "sim", num=num, depth=consts["Depth"] + 1, seed=seed + j, tag="g%d" % j,
+                                  timeout=3000)
+        n += k
+        log("gen %s %s: %d (%.1fs)" % (spec, mode, k, r["wall"]))
+    trace = os.path.join(work, "trace.ndjson")
+    hrc = run_harness(["adapters-replay", beh, trace])
+    val = ad_validate(trace, work)
+    st = val["stats"] + [0] * 14
+    extra = dict(trace_events=st[0], calls_followed=st[2], generator_states=gstates, generator_transitions=gtrans,
+                 exercised=dict(polls_with_output=st[3], polls_with_lag_reset=st[4], stream_ends_seen=st[6],
+                                wake_checks_nonvacuous=st[7], quiescent_view_checks=st[8], twin_comparisons=st[9],
+                                limit_changes=st[10], bounded_stage_outputs=st[11], batched_outputs=st[12]),
+                 harness_hang=(hrc == 3), exhaustive=False,
+                 mc_config="source side: Vec.tla (MCVec); adapters are judged on the real code's output by TraceAdapters.tla against Adapters.tla")
+    mc2 = dict(distinct=mc["distinct"] + gstates, generated=mc["generated"] + gtrans)
+    return finish(prop, tier, seed, t0, mc2, n, beh, val, AD_RULES[prop], ad_nontrivial(prop), extra,
+                  ["taps between the stages are transparent (they forward every poll and item unchanged)",
+                   "the harness logs initial values and every diff verbatim; TLC applies them (VecOps!Apply)",
+                   "bounded vector lengths / limits in the exhaustive part; random walks beyond"],
+                  "adapters", ad_sig)
+
+
+for _p in ("C09", "C10", "C11", "C12", "C13", "C14", "C15"):
+    CHECKS[_p] = adapters_pipeline
+
+
+# =========================================================================== C18: VectorDiff::map / apply (pure function)
+def vecops_pipeline(prop, tier, seed, work, t0):
+    quick = tier == "quick"
+    cfg = os.path.join(work, "GenVecOps.cfg")
+    consts = dict(MaxL=3 if quick else 4, Vals={1, 2} if quick else {1, 2, 3}, NRandom=2000 if quick else 100000,
+                  RandLen=40)
+    write_cfg(cfg, init="Init", next_="Next", constants=consts)
+    uf = os.path.join(work, "cases.out")
+    r = tlc("GenVecOps", cfg, work, workers=1, timeout=3000, userfile=uf, seed=seed, tag="gen")
+    if not tlc_ok(r, "GenVecOps"):
+        log(r["out"][-4000:])
+        raise ToolError("GenVecOps: the commutation law fails on the specification's own definitions (spec error)")
+    beh = os.path.join(work, "beh.ndjson")
+    n = 0
+    with open(beh, "w") as o:
+        for js in parse_user_lines(uf, "B"):
+            o.write(js + "\n")
+            n += 1
+    os.remove(uf)
+    trace = os.path.join(work, "trace.ndjson")
+    run_harness(["vecops", beh, trace])
+    c = os.path.join(work, "TraceVecOps.cfg")
+    write_cfg(c, spec="TraceSpec", postcondition="TraceAccepted")
+    val = validate("TraceVecOps", c, trace, work, nchunks=8 if quick else 16)
+    for v in val["violations"]:
+        v["run_case"] = True
+    st = val["stats"] + [0] * 4
+    extra = dict(cases=st[1], cases_where_apply_must_panic=st[2], cases_with_effective_change=st[3],
+                 exhaustive=True,
+                 exhaustive_domain="all vectors of length <= %d over %d values x all diffs of the 11 kinds with every index up to 2 beyond "
+                                   "the end x 4 mappings; plus %d random cases with lengths <= 40" % (consts["MaxL"], len(consts["Vals"]), consts["NRandom"]),
+                 mc_config="ASSUME MCCommute: the law holds on VecOps.tla's own Apply/MapDiff for the exhaustive domain")
+    mc = dict(distinct=max(n, 1), generated=max(n, 1))
+
+    def sig(v):
+        return dict(layer="vecops", clause=v["clause"], kind=v["detail"]["d"]["k"])
+    return finish(prop, tier, seed, t0, mc, n, beh, val,
+                  "cases enumerated by TLC (GenVecOps.tla): exhaustive small domain + random larger vectors; every case is distinct; "
+                  "non-trivial = the diff changes the vector or must panic",
+                  lambda c: True, extra,
+                  ["VecOps.tla's Apply/MapDiff are the documented meaning of the eleven diff kinds",
+                   "states/transitions here count enumerated cases, not a behaviour graph (pure function)"],
+                  "vecops", sig)
+
+
+CHECKS["C18"] = vecops_pipeline
+
+
+# =========================================================================== C20: drop accounting (all layers, tracked elements)
+def tokens_pipeline(prop, tier, seed, work, t0):
+    quick = tier == "quick"
+    beh_all = os.path.join(work, "beh.ndjson")
+    open(beh_all, "w").close()
+    all_viol = []
+    stats = [0, 0, 0, 0]
+    offset = 0
+    states = 0
+    gstates = gtrans = 0
+    parts = []
+    # ---- obs layer
+    b = os.path.join(work, "beh-obs.ndjson")
+    c = os.path.join(work, "GenObsEdge.cfg")
+    write_cfg(c, spec="Spec", constants=dict(OBS_MC, Depth=4 if quick else 5), view="View", constraints=["Bound"], action_constraints=["Edge"])
+    k1, r = gen_behaviours("GenObs", c, work, b, "edge", tag="oe")
+    gstates += r["distinct"]; gtrans += r["generated"]
+    c = os.path.join(work, "GenObsSim.cfg")
+    write_cfg(c, spec="Spec", constants=dict(NV=3, OwnerIds={1, 2, 3}, SubIds={1, 2, 3, 4}, WeakIds={1, 2}, GuardIds={1, 2},
+                                            Kinds={"unique", "shared"}, Depth=40), constraints=["BoundTree"], invariants=["PrintAtDepth"])
+    k2, _ = gen_behaviours("GenObs", c, work, b, "sim", num=300 if quick else 10000, depth=41, seed=seed, tag="os")
+    parts.append(("obs", b, ["obs-replay", b, None, "--nv", "3", "--track"], k1 + k2))
+    # ---- vec layer
+    b = os.path.join(work, "beh-vec.ndjson")
+    base = dict(MaxDecs=2, SubIds={1, 2}, MaxLen=2, LagThenClosedLosesState=False)
+    k = 0
+    for j, (spec, over) in enumerate([("SpecStreams", dict(Caps={1, 2}, Depth=5 if quick else 6)),
+                                      ("SpecTxn", dict(Caps={1, 16}, Depth=5 if quick else 6, SubIds={1}))]):
+        c = os.path.join(work, "GenVecEdge%d.cfg" % j)
+        write_cfg(c, spec=spec, constants=dict(base, **over), view="View", constraints=["Bound"], action_constraints=["Edge"])
+        kk, r = gen_behaviours("GenVec", c, work, b, "edge", tag="ve%d" % j, workers=12)
+        gstates += r["distinct"]; gtrans += r["generated"]
+        k += kk
+    c = os.path.join(work, "GenVecSim.cfg")
+    write_cfg(c, spec="SpecAll", constants=dict(MaxDecs=3, SubIds={1, 2, 3}, Caps={1, 2, 3, 16}, MaxLen=6, LagThenClosedLosesState=False, Depth=50),
+              constraints=["BoundTree"], invariants=["PrintAtDepth"])
+    kk, _ = gen_behaviours("GenVec", c, work, b, "sim", num=300 if quick else 10000, depth=51, seed=seed, tag="vs")
+    parts.append(("vec", b, ["vec-replay", b, None, "--track"], k + kk))
+    # ---- adapters layer
+    b = os.path.join(work, "beh-ad.ndjson")
+    c = os.path.join(work, "GenAdSim.cfg")
+    write_cfg(c, spec="GSpecTxn", constants=ad_base(StageKinds=ALL_KINDS, NStages={1, 2, 3}, Depth=30, Caps={1, 16}, InitLens={0, 2, 5},
+                                                  Params={0, 1, 3}, MaxLen=8, SelfObs={0, 1}, PipeFlavs={"plain", "batched", "twin"}),
+              constraints=["BoundTree"], invariants=["PrintAtDepth"])
+    kk, _ = gen_behaviours("GenAdapters", c, work, b, "sim", num=600 if quick else 20000, depth=31, seed=seed, tag="as")
+    parts.append(("adapters", b, ["adapters-replay", b, None, "--track"], kk))
+    crashed = None
+    for layer, b, cmd, cnt in parts:
+        trace = os.path.join(work, "trace-%s.ndjson" % layer)
+        cmd = [x if x is not None else trace for x in cmd]
+        bin_ = build_harness()
+        p = subprocess.run([bin_] + cmd, stdout=subprocess.PIPE, stderr=subprocess.STDOUT, text=True, timeout=1800)
+        if p.returncode not in (0, 3):
+            # abnormal exit (abort / signal) while running tracked code: data, attributed to the last run started
+            last = 0
+            with open(trace) as f:
+                for line in f:
+                    if '"e":"Begin"' in line:
+                        last = json.loads(line)["run"]
+            crashed = (layer, last + offset, p.returncode)
+            log("harness crashed in layer %s (rc %d) during run %d" % (layer, p.returncode, last))
+        c = os.path.join(work, "TraceTokens.cfg")
+        write_cfg(c, spec="TraceSpec", postcondition="TraceAccepted")
+        val = validate("TraceTokens", c, trace, work)
+        for v in val["violations"]:
+            v["run"] += offset
+            v["detail"]["layer"] = layer
+        all_viol += val["violations"]
+        st = val["stats"] + [0] * 4
+        stats = [a + b_ for a, b_ in zip(stats, st[:4])]
+        states += val["states"]
+        with open(beh_all, "a") as o, open(b) as i:
+            for line in i:
+                o.write(line)
+        offset += cnt
+        os.remove(trace)
+    if crashed:
+        all_viol.append(dict(run=crashed[1], event=0, prop="C20", clause="abnormal-exit",
+                             detail=dict(layer=crashed[0], rc=crashed[2], op="process")))
+    val = dict(violations=all_viol, stats=stats, states=states)
+    extra = dict(trace_events=stats[0], token_events_checked=stats[2], runs_torn_down_clean=stats[3],
+                 generator_states=gstates, generator_transitions=gtrans, exhaustive=False,
+                 layers=[dict(layer=l, behaviours=cnt) for l, _, _, cnt in parts])
+    mc = dict(distinct=max(gstates, 1), generated=max(gtrans, 1))
+
+    def sig(v):
+        return dict(layer=v["detail"].get("layer"), clause=v["clause"], op=v["detail"].get("op"))
+    return finish(prop, tier, seed, t0, mc, offset, beh_all, val,
+                  "behaviours of the obs, vec and adapters layers (transition covers + random walks generated by TLC) executed with an "
+                  "instrumented element type; non-trivial = at least three operations",
+                  lambda b: len(b) >= 4, extra,
+                  ["only drop ACCOUNTING is decided (construction / clone / use / drop events of an instrumented element type); undefined "
+                   "behaviour that does not disturb the counters is invisible to this technique",
+                   "states/transitions are those of the generating TLC runs"],
+                  "tokens", sig, level="model_checking")
+
+
+CHECKS["C20"] = tokens_pipeline
